@@ -88,6 +88,22 @@ func sameFloat(a, b float64) bool {
 	return math.Float64bits(a) == math.Float64bits(b)
 }
 
+// appendOnly: encoding behind an existing prefix, into spare capacity that holds
+// stale bytes (a recycled buffer), must leave the prefix alone and append
+// exactly the bytes a fresh buffer receives.
+func (c *codecRun) appendOnly(what string, fresh []byte, encode func(b *[]byte)) {
+	buf := make([]byte, 24)
+	for i := range buf {
+		buf[i] = 0xa5
+	}
+	buf[0], buf[1] = 0x17, 0xfe
+	d := buf[:2]
+	encode(&d)
+	if len(d) != 2+len(fresh) || d[0] != 0x17 || d[1] != 0xfe || !bytes.Equal(d[2:], fresh) {
+		c.fail("C18.append-only", "%s: into a fresh buffer % x, behind the prefix 17 fe with stale spare capacity % x", what, fresh, d)
+	}
+}
+
 var paddings = [][]byte{nil, {0x00}, {0xff, 0x80, 0x01, 0xff, 0xff, 0xff, 0xff, 0xff, 0xff, 0xff}}
 
 // checkEncodeU: one unsigned value through encoder, size function, decoder,
@@ -104,6 +120,7 @@ func (c *codecRun) checkEncodeU(u uint64) {
 	if n > 1 {
 		c.distinct++
 	}
+	c.appendOnly(fmt.Sprintf("EncodeUvarint64(%d)", u), b, func(d *[]byte) { enc.EncodeUvarint64(d, u) })
 	for _, pad := range paddings {
 		in := append(append([]byte{}, b...), pad...)
 		s := in
@@ -130,6 +147,7 @@ func (c *codecRun) checkEncodeU(u uint64) {
 			c.fail("C18.size", "EncodeVarint64(%d) wrote %d bytes, Varint64Size says %d", sv, len(sb), enc.Varint64Size(sv))
 			return
 		}
+		c.appendOnly(fmt.Sprintf("EncodeVarint64(%d)", sv), sb, func(d *[]byte) { enc.EncodeVarint64(d, sv) })
 		for _, pad := range paddings[:2] {
 			in := append(append([]byte{}, sb...), pad...)
 			s := in
@@ -172,6 +190,7 @@ func (c *codecRun) checkEncodeF(f float64) {
 	if n > 1 {
 		c.distinct++
 	}
+	c.appendOnly(fmt.Sprintf("EncodeVarfloat64(%v)", f), b, func(d *[]byte) { enc.EncodeVarfloat64(d, f) })
 	want := (f + 1) - 1
 	for _, pad := range paddings {
 		in := append(append([]byte{}, b...), pad...)
@@ -196,6 +215,7 @@ func (c *codecRun) checkEncodeF(f float64) {
 		c.fail("C18.size", "EncodeFloat64LE wrote %d bytes", len(le))
 		return
 	}
+	c.appendOnly(fmt.Sprintf("EncodeFloat64LE(%v)", f), le, func(d *[]byte) { enc.EncodeFloat64LE(d, f) })
 	for _, pad := range paddings[:2] {
 		in := append(append([]byte{}, le...), pad...)
 		s := in
